@@ -5,7 +5,7 @@ import { evalSemantic, firstDiff, eraseHints } from './semantic.mjs';
 
 export const id = 'C05';
 
-export const HOSTS = ['inputNoType', 'inputText', 'inputCheckbox', 'inputRadio', 'inputDynamic', 'inputOtherStatic', 'select', 'textarea', 'component', 'componentUnbound'];
+export const HOSTS = ['inputNoType', 'inputText', 'inputCheckbox', 'inputRadio', 'inputDynamic', 'inputBracedConst', 'inputOtherStatic', 'select', 'textarea', 'component', 'componentUnbound'];
 export const TARGETS = ['ident', 'member', 'index', 'deepMember'];
 export const ARGS = ['none', 'ns', 'strSecond', 'computedSecond'];
 export const MODS = ['none', 'suffix1', 'suffix2', 'arrayList', 'arrayEmpty'];
@@ -21,6 +21,10 @@ export function hostOf(b, host) {
     case 'inputDynamic': {
       const g = b.global({ k: 'str', v: 'checkbox' }, { log: false });
       return { tag: { kind: 'html', name: 'input', src: 'input' }, pre: [A.attr('type', { k: 'leaf', i: b.leaf(g), src: g })], directive: 'vModelDynamic', isComp: false };
+    }
+    case 'inputBracedConst': {
+      // a constant type written in braces: the matching static directive or the dynamic one are both right
+      return { tag: { kind: 'html', name: 'input', src: 'input' }, pre: [{ ...A.attr('type', { k: 'leaf', i: b.leaf('"checkbox"'), src: '"checkbox"' }) }], directive: 'vModelDynamic', altDirective: 'vModelCheckbox', isComp: false };
     }
     case 'select': return { tag: { kind: 'html', name: 'select', src: 'select' }, pre: [], directive: 'vModelSelect', isComp: false };
     case 'textarea': return { tag: { kind: 'html', name: 'textarea', src: 'textarea' }, pre: [], directive: 'vModelText', isComp: false };
@@ -96,7 +100,7 @@ export function build(host, entries, mode, neighbours) {
   b.addThunk('t0', renderElement(el));
   // flatten `models` for the interpreter
   const elRef = { ...el, attrs: attrs.flatMap((a) => (a.t === 'models' ? a.items : [a])) };
-  return { src: b.source(), spec: { thunks: [{ name: 't0', el: elRef }], env: b.env, nModels: models.length, isComp: h.isComp } };
+  return { src: b.source(), spec: { thunks: [{ name: 't0', el: elRef }], env: b.env, nModels: models.length, isComp: h.isComp, directive: h.directive, altDirective: h.altDirective } };
 }
 
 const OPTS = [];
@@ -120,6 +124,8 @@ export function* generate({ tier, seed }) {
     const g = emit(host, [[tk, af, mf]], 'single', nb, tier === 'quick' ? [rng.pick(OPTS), rng.pick(OPTS)] : OPTS);
     if (g) yield g;
   }
+  const nMulti = tier === 'quick' ? 400 : 5000;
+  for (let i = 0; i < nMulti; i++) { const c = buildMulti(rng); yield { gid: `C05-${n++}`, src: c.src, syntax: 'jsx', spec: c.spec, feature: c.feature, variants: [{ vid: 'v0', options: rng.pick(OPTS) }] }; }
   // v-models lists (components) and the same entries as separate v-model attributes
   const nLists = tier === 'quick' ? 2500 : 30000;
   for (let i = 0; i < nLists; i++) {
@@ -143,6 +149,22 @@ function normListeners(c) {
   return c;
 }
 
+/** several different v-model hosts in ONE module (a per-module cache of the chosen directive would show here) */
+function buildMulti(rng) {
+  const b = new ModuleBuilder();
+  const hosts = rng.shuffle(['inputNoType', 'inputCheckbox', 'inputRadio', 'inputDynamic', 'select', 'textarea', 'inputText']).slice(0, 2 + rng.int(3));
+  const thunks = [];
+  hosts.forEach((host, k) => {
+    const h = hostOf(b, host);
+    const m = makeModel(b, h, rng.pick(TARGETS), 'none', rng.pick(['none', 'arrayList']), k);
+    const attrs = [...h.pre, { t: 'model', den: m.den, src: m.attrSrc }];
+    const el = { tag: h.tag, attrs, children: [], selfClose: true };
+    b.addThunk(`t${k}`, renderElement(el));
+    thunks.push({ name: `t${k}`, el });
+  });
+  return { src: b.source(), spec: { thunks, env: b.env, isComp: false, multi: true }, feature: `multi|${hosts.join('+')}` };
+}
+
 export async function check(group, records) {
   const out = [];
   const spec = group.spec;
@@ -152,10 +174,21 @@ export async function check(group, records) {
     if (!rec || rec.status !== 'ok') { out.push(inconclusive({ ...base, reason: `transform status ${rec && rec.status}` })); continue; }
     if (rec.n_err > 0) { out.push(violated({ ...base, oracle: 'no-diagnostic-on-valid-input', sig: `C05/unexpected-diagnostic/${short(rec.diags[0].msg, 50)}`, detail: rec.diags })); continue; }
     const live = (r) => {
+      if (spec.multi) {
+        for (const e of r.thunks) {
+          if (e.B.error) return inconclusive({ ...base, reason: 'reference failed: ' + short(e.B.error) });
+          if (e.A.error) return violated({ ...base, oracle: 'thunk-evaluates', sig: `C05/runtime-error/${e.A.error.name}`, detail: e.A.error });
+          const d = firstDiff(eraseHints(e.A.canon), eraseHints(e.B.canon));
+          if (d) return violated({ ...base, oracle: 'each host gets the directive matching it', sig: `C05/vnode-differs/multi-host/${d.path.replace(/\[\d+\]/g, '[]').replace(/^\$\.vnode\./, '').slice(0, 30)}`, detail: { thunk: e.name, path: d.path, observed: short(d.a), expected: short(d.b) } });
+        }
+        return held({ ...base, events: { hosts_in_module: r.thunks.length, withDirectives: r.thunks.length } });
+      }
       const e = r.thunks[0];
       if (e.B.error) return inconclusive({ ...base, reason: 'reference failed: ' + short(e.B.error) });
       if (e.A.error) return violated({ ...base, oracle: 'thunk-evaluates', sig: `C05/runtime-error/${e.A.error.name}`, detail: e.A.error });
+      const alt = spec.altDirective;
       const a = normListeners(eraseHints(e.A.canon));
+      if (alt && a.vnode && a.vnode.dirs) for (const dd of a.vnode.dirs) if (dd.dir && dd.dir.ref === `vue:${alt}`) dd.dir.ref = `vue:${spec.directive}`;
       const bb = normListeners(eraseHints(e.B.canon));
       const d = firstDiff(a, bb);
       if (d) {
